@@ -479,3 +479,69 @@ theorem flat_zipT_sub {r c : Arg ℝ} (h : r.shapeEq c) :
           rw [ih bs h.2, List.zipWith_append h.1]
 
 end Scico.ProxCalc
+
+namespace Scico.ProxCalc
+open Scico Scico.FuncEval
+
+/-! ### closed-form branch on whole complex arrays (interleaved data) -/
+section cplxdiag
+variable {K : Type} [Field K] [LinearOrder K] [IsStrictOrderedRing K]
+
+/-- objective of the prox of the weighted squared-ℓ² loss with a complex diagonal forward operator on
+    interleaved arrays: `Σ_j (c/2)·w_j·|a_j x_j − y_j|² + ½|x_j − v_j|²`, `c = 2·scale·lam`
+    (`= lam·scale·Σ w|a x − y|² + ½‖x − v‖²`) -/
+def diagObjC (c : K) : List K → List K → List K → List K → List K → K
+  | w :: ws, ar :: ai :: as, yr :: yi :: ys, vr :: vi :: vs, xr :: xi :: xs =>
+    entryObj c w ar ai yr yi vr vi xr xi + diagObjC c ws as ys vs xs
+  | _, _, _, _, _ => 0
+
+theorem sqL2DiagProx_cplx_cons (scale lam w ar ai yr yi vr vi : K) (ws as ys vs : List K) :
+    sqL2DiagProx true scale lam (some (w :: ws)) (ar :: ai :: as) (yr :: yi :: ys) (vr :: vi :: vs)
+      = (diagEntry ((1 + 1) * scale * lam) w ar ai yr yi vr vi).1 ::
+        (diagEntry ((1 + 1) * scale * lam) w ar ai yr yi vr vi).2 ::
+        sqL2DiagProx true scale lam (some ws) as ys vs := by
+  simp only [sqL2DiagProx, emul, econj, cconjL, rmulL, rmulLc, cmulL, sqmags, pairs, edivR, edivRc, diagEntry,
+    Option.getD, List.map, List.zipWith, if_true]
+  congr 1
+  · congr 1; ring
+  · congr 1; congr 1; ring
+
+theorem two_cons_of_length {l : List K} {k : Nat} (h : l.length = 2 * (k + 1)) :
+    ∃ p q r, l = p :: q :: r ∧ r.length = 2 * k := by
+  match l, h with
+  | p :: q :: r, h => exact ⟨p, q, r, rfl, by simp only [List.length_cons] at h; omega⟩
+  | [_], h => simp at h; omega
+  | [], h => simp at h
+
+/-- **complex diagonal `A`, whole arrays, every length**: the array returned by the closed-form branch
+    minimises the documented objective among all arrays of the same length (`k` complex entries =
+    interleaved lists of length `2k`; weights `≥ 0` incl. zeros, `scale·lam ≥ 0`) -/
+theorem sqL2DiagProx_minimises_cplx {scale lam : K} (hc : 0 ≤ (1 + 1) * scale * lam) :
+    ∀ (w a y v x : List K), (∀ wi ∈ w, 0 ≤ wi) → a.length = 2 * w.length → y.length = 2 * w.length →
+      v.length = 2 * w.length → x.length = 2 * w.length →
+      diagObjC ((1 + 1) * scale * lam) w a y v (sqL2DiagProx true scale lam (some w) a y v)
+        ≤ diagObjC ((1 + 1) * scale * lam) w a y v x := by
+  intro w
+  induction w with
+  | nil =>
+    intro a y v x _ ha hy hv hx
+    simp only [List.length_nil, Nat.mul_zero, List.length_eq_zero_iff] at ha hy hv hx
+    subst ha hy hv hx
+    simp [diagObjC]
+  | cons w0 ws ih =>
+    intro a y v x hw ha hy hv hx
+    simp only [List.length_cons] at ha hy hv hx
+    obtain ⟨ar, ai, as, rfl, has⟩ := two_cons_of_length ha
+    obtain ⟨yr, yi, ys, rfl, hys⟩ := two_cons_of_length hy
+    obtain ⟨vr, vi, vs, rfl, hvs⟩ := two_cons_of_length hv
+    obtain ⟨xr, xi, xs, rfl, hxs⟩ := two_cons_of_length hx
+    rw [sqL2DiagProx_cplx_cons]
+    simp only [diagObjC]
+    have h0 := diagEntry_minimises hc (hw w0 (by simp)) ar ai yr yi vr vi xr xi
+    have := ih as ys vs xs (fun wi hwi => hw wi (by simp [hwi])) has hys hvs hxs
+    simp only at h0
+    linarith
+
+end cplxdiag
+
+end Scico.ProxCalc
